@@ -40,7 +40,7 @@ impl<T> RawBuf<T> {
         }
 
         if cap > 4096 {
-            crate::verif_capacity!("buffer of more than 4096 elements");
+            crate::verif_capacity!("VERIF-CAPACITY: buffer of more than 4096 elements");
         }
 
         let layout = unsafe { Layout::from_size_align_unchecked(size_of::<T>() * cap, ::std::mem::align_of::<T>()) };
